@@ -3,15 +3,15 @@ CONSTANTS
   c1 = c1  c2 = c2  c3 = c3  w1 = w1  w2 = w2  rp = rp  rb = rb
   NSlab = 3  Cap = 3  Q = 1  NPkt = 3
   Clients = {c1, c2}
-  Kinds <- KMixedSmall
+  Kinds <- KOptBatch
   Workers = {w1}
-  PReaders = {rp}
+  PReaders <- NoReaders
   BReaders = {rb}
-  B = 1  TXMax = 2
+  B = 2  TXMax = 2
   Inline = TRUE  BatchTX = TRUE  Drops = FALSE
   ScrubTxLen = TRUE  ResetRawSA = TRUE  BothOnHandoff = FALSE
-  ResetSlot = TRUE  Opts <- ONone
+  ResetSlot = TRUE  Opts <- OCookie
 SPECIFICATION Spec
 SYMMETRY SymClients
-INVARIANTS TypeOK SingleOwner ReleaseOnce ReplyIsOwn SilentStaysSilent AtMostOneSend LeaseBound QuiescedIff BurstBound HandoffClean FreeIsScrubbed
+INVARIANTS ReplyOptIsOwn SlotIsZeroBetweenRequests TypeOK SingleOwner ReleaseOnce ReplyIsOwn SilentStaysSilent AtMostOneSend LeaseBound QuiescedIff BurstBound HandoffClean FreeIsScrubbed
 CHECK_DEADLOCK FALSE
